@@ -174,6 +174,12 @@ def cycle(rep, tracer, work, dat, doc, spec_stream, key, det, mesh=None, xp=None
     if xp is not None:
         kw = {"extra_precision": xp[0], "echo_extra_precision": xp[1]}
     try:
+        if mesh is not None and len(dat.grid.rocktypelist) >= 2:
+            # an edited model: the first rock type renamed and renamed back - the same model, with the rock type lookup's
+            # order no longer that of the rock type list (the order ROCKS is written in)
+            r0 = dat.grid.rocktypelist[0].name
+            dat.grid.rename_rocktype(r0, "~tmp~")
+            dat.grid.rename_rocktype("~tmp~", r0)
         before = t2dbuild.canon(dat, binary_mesh=False)
         intended = list(dat._sections)
         tracer.record()
